@@ -35,7 +35,9 @@ def run_proc(job, shared=None):
 
     log, lock, plan, cap = shared
     jid = int(job.id.split(".")[1])
-    kind, dur, every, extra = plan[jid % len(plan)]
+    kind, dur, every, extra = plan[jid % len(plan)][:4]
+    b = plan[jid % len(plan)]
+    val = 0 if len(b) > 4 and b[4] == "zero" else 1000 + jid
 
     def poll():
         with lock:
@@ -56,7 +58,7 @@ def run_proc(job, shared=None):
             break
     with lock:
         log.append([jid, 3, 0])
-    return 1000 + jid
+    return val
 
 
 def main():
@@ -99,6 +101,9 @@ def main():
             search = RandomSearch(problem, evaluator, random_state=1, log_dir=d)
             if mode == "search":
                 df = search.search(timeout=T)
+            elif mode == "evtimeout_search":
+                evaluator.timeout = T
+                df = search.search(max_evals=case["max_evals"])
             elif mode == "search_max":
                 df = search.search(max_evals=case["max_evals"], timeout=T)
             else:
@@ -119,7 +124,9 @@ def main():
             tr = [list(e) for e in log]
         late = sum(1 for e in tr[n_at_return:] if e[1] in (1, 2, 3))
         njobs = len(storage.load_all_job_ids(evaluator._search_id))
-    vals = sorted({e[0]: 1000 + e[0] for e in tr if e[1] == 3}.items())
+    from vp.props.c14 import valof
+
+    vals = sorted({e[0]: valof(case["plan"], e[0]) for e in tr if e[1] == 3}.items())
     ex = getattr(evaluator, "executor", None)
     if ex is not None:
         ex.shutdown(wait=False, cancel_futures=True)
